@@ -266,6 +266,44 @@ def main():
     lines.append("sm " + " ".join(ops))
     expect.append(("sm", nsaved, dict(ops=ops)))
 
+    # ---------------- MaterialPoint.Run: mixed strain / stress control; only the converged step of each increment advances the history ----------------
+    from EasyFEA.Models.InElastic import MaterialPoint
+    mp_cases = [(n_, mk_) for n_, mk_, inf_ in combos if inf_["dim"] == 3 and not inf_.get("rate") and n_ in ("VM+linear 3D", "VM+Voce+AF 3D", "Hill+Swift 3D", "VM+Prager 3D")]
+    for name, mk in mp_cases:
+        law = mk()
+        n_ = 10 if not thorough else 20
+        amp = 0.008 * rng.choice([1.0, 1.5])
+        up = np.linspace(0.0, amp, n_)
+        paths = {"uniaxial stress, load / unload / reverse": {"xx": np.concatenate([up, up[::-1][1:], -up[1:]])},
+                 "tension then shear (xx, xy driven, the others stress-free)": {"xx": np.concatenate([up, np.full(n_, up[-1])]), "xy": np.concatenate([np.zeros(n_), np.linspace(0.0, 1.3 * amp, n_)])}}
+        for pname, strain in paths.items():
+            ident = dict(behavior=name, path=pname, amplitude=amp, steps=int(len(next(iter(strain.values())))))
+            try:
+                out = MaterialPoint(law).Run(strain=strain)
+                eps_h, sig_h, st_h = np.asarray(out["strain"]), np.asarray(out["stress"]), np.asarray(out["state"])
+                ph = np.asarray(out["p"]) if "p" in out else None
+            except Exception as ex:  # noqa: BLE001
+                res.fail(f"MaterialPoint.Run raises behavior={name}", f"{type(ex).__name__}: {str(ex)[:150]}", ident)
+                continue
+            res.case(("materialpoint", name, pname))
+            res.count("materialpoint")
+            zprev = None
+            gap_s = gap_z = 0.0
+            for k in range(len(eps_h)):
+                s_k, _, z_k, ok_k = law.Integrate(fe(eps_h[k]), zprev)
+                gap_s = max(gap_s, float(np.abs(np.asarray(s_k)[0, 0] - sig_h[k]).max()))
+                gap_z = max(gap_z, float(np.abs(np.asarray(z_k)[0, 0] - st_h[k]).max()))
+                zprev = fe(st_h[k])
+            if gap_s > 1e-7 * sy or gap_z > 1e-10:
+                res.fail("MaterialPoint.Run: a recorded step is not one integration away from the previous recorded state",
+                         f"max |stress_k - Integrate(strain_k, state_(k-1))| = {gap_s:.2e}, max state gap = {gap_z:.2e}: trial iterates of the stress-control loop advanced the history", ident)
+                continue
+            if ph is not None and np.diff(ph).min() < -1e-13:
+                res.fail("MaterialPoint.Run: accumulated plastic strain decreases", f"min increment {np.diff(ph).min():.2e}", ident)
+            free = [i for i, c in enumerate(["xx", "yy", "zz", "yz", "xz", "xy"]) if c not in strain]
+            if np.abs(sig_h[:, free]).max() > 1e-6 * sy:
+                res.fail("MaterialPoint.Run: a stress-controlled component is not stress-free", f"max |sigma_free| = {np.abs(sig_h[:, free]).max():.2e}", ident)
+
     answers = driver.ask(lines)
     if answers is None:
         res.disagree("driver", "model driver does not run: " + getattr(driver, "error", "")[:400])
@@ -291,4 +329,6 @@ def main():
 
 
 if __name__ == "__main__":
-    main()
+    from tools.harness._common import run
+
+    run(main)
